@@ -41,12 +41,14 @@ def key_of_text(text: str):
 
 def make_set(remote_id="ELEC7001", toggle=False, modes=("auto", "dry", "fan", "cool", "heat"),
              tmin=16, tmax=30, coverage=("base", "fan", "swing"), on_coverage=None, fans=("auto", "low", "medium", "high"),
-             with_off=True, with_fun=None, pad=0, odd_coverage=None, distractors=False):
+             with_off=True, with_fun=None, pad=0, odd_coverage=None, distractors=False, order="asc"):
     """Build an IR set dict.
 
     coverage: which key shapes exist for plain keys: 'base' (mode[+temp]), 'fan' (+_fN), 'swing' (+_fN_d1).
     on_coverage: same for `on_`-prefixed keys (toggle sets); None = same as coverage when toggle else nothing.
     distractors: also store `<stem>_d1` (swing without fan level) entries, which no request may ever select.
+    order: "asc" lists the entries in generation order (temperatures ascending), "desc" in reverse, "rot" starts in the
+           middle of that list - the order in which a vendor file lists its entries carries no meaning.
     odd_coverage: if given, odd temperatures (and the dry/fan modes) use this coverage instead - a set whose
                   key coverage is not uniform across temperatures and modes.
     """
@@ -75,6 +77,11 @@ def make_set(remote_id="ELEC7001", toggle=False, modes=("auto", "dry", "fan", "c
     if with_fun:
         waves.append(wave("FUN_d0", pad))
         waves.append(wave("FUN_d1", pad))
+    if order == "desc":
+        waves.reverse()
+    elif order == "rot":
+        k = len(waves) // 2
+        waves = waves[k:] + waves[:k]
     return {"IRSetID": remote_id, "OnOffType": 1 if toggle else 0, "IRWaveList": waves}
 
 
